@@ -26,7 +26,7 @@ RULE = ("generators = quoted spend lists from the cond grammar (15 scenarios; qu
         "puzzles) x 18 output-shape mutations (short/improper/atom spend tuples, non-nil terminators, spend- and block-level "
         "extras, unwrapped/nested lists, late malformed spend, id/amount encodings, failing puzzles) x procedural wrappers "
         "(apply, cons, block-reference deserializer, reference used as parent id) x malformed bytes (truncation, bad and "
-        "valid back-references, non-canonical prefixes, bit flips) x back-reference re-serialisation x reference lists x "
+        "valid back-references, non-canonical prefixes, bit flips) x 10 non-canonical first-byte forms of the quote (over-long length prefixes 1..6, back-reference, nested, two-byte, nil), each with and without SIMPLE_GENERATOR x back-reference re-serialisation x reference lists x "
         "flag sets (condition flags, SIMPLE/INTERNED generator, mempool mode, CLVM dialect bits) x cost limits (block "
         "limit, byte-cost boundary, both totals -1/0/+1) + /repo/generator-tests. "
         "non-trivial/distinct = distinct (source kind, mutation tag, flag class, legacy verdict, native verdict, ROM class)")
@@ -166,6 +166,9 @@ def run(ctx):
         c["refs"] = [rng.bytes(rng.below(40))] + ([rng.bytes(3)] if rng.chance(1, 3) else [])
         c["tags"] = c["tags"] + [("simple-refs", str(len(c["refs"])))]
         cases.append(c)
+    # non-canonical first bytes (every variant, at every run, with and without SIMPLE_GENERATOR): the byte-level
+    # check_generator_quote must reject on BOTH paths what only the node-level check would accept
+    cases.extend(env.head_cases(per_head=1 if tier == "quick" else 20))
     # corpus
     impl_only = []
     for name, prog, refs, big in G.file_cases(tier, env):
